@@ -1119,6 +1119,32 @@ class Gen:
         op.setdefault('tag', []).append('rejected-call-handled')
         return op
 
+    def op_catch_multi(self, what=None):
+        """refusals that come AFTER the call has looked at valid arguments: ONE context write_entity call for 2-3 handles
+        with an unknown handle at a random position; add_descriptor with the state container of another descriptor"""
+        what = what or self.rng.choice(['wr', 'addbad'])
+        many = [dh for dh in self.live('ctx') if self.ctx_of(dh)]
+        if what == 'wr' and many:
+            dh = self.pick(many)
+            hs = self.rng.sample(self.ctx_of(dh), min(len(self.ctx_of(dh)), self.rng.choice([1, 2])))
+            hs.insert(self.rng.randint(0, len(hs)), 'no_such_state')
+            acts = [['wr', dh, hs, self.fresh()]]
+            others = [h for h in sorted(self.ctx_states) if h not in hs]
+            if others and self.rng.random() < 0.5:       # and a statement that is fine
+                acts.insert(self.rng.randint(0, 1), ['get', self.rng.choice(others), self.fresh(), None])
+            return {'k': 'ctx', 'iface': 'entity', 'actions': acts, 'catch': True,
+                    'tag': ['rejected-call-handled', 'write_entity-bad-handle']}
+        leaf = self.new_leaf()
+        if leaf is None:
+            return None
+        h, p, t = leaf
+        other = self.rng.choice([x for x in self.tree if self.types[x] == t])
+        acts = [['addbad', h, p, t, self.fresh(), other]]
+        if self.rng.random() < 0.5:
+            acts.insert(self.rng.randint(0, 1), ['upd', self.pick(self.live('metric')), self.fresh()])
+        return {'k': 'descr', 'iface': 'classic', 'actions': acts, 'catch': True,
+                'tag': ['rejected-call-handled', 'add_descriptor-foreign-state']}
+
     def macro_empty_and_handled(self):
         """empty transactions of every kind in every form, then transactions with handled rejections"""
         ops = []
@@ -1127,6 +1153,17 @@ class Gen:
                 ops.append(self.op_empty(kind, form))
         for j in range(10):
             op = self.op_catch(batch=j % 3 == 0)
+            if op:
+                ops.append(op)
+        dhs = self.live('ctx')
+        if dhs and not any(self.ctx_of(dh) for dh in dhs):
+            acts = []
+            dh = self.pick(dhs)
+            self._mk(dh, 'entity', acts, explicit=True, assoc=False)
+            self._mk(dh, 'entity', acts, explicit=True, assoc=False)
+            ops.append({'k': 'ctx', 'iface': 'entity', 'actions': acts})
+        for what in self.rng.sample(['wr', 'wr', 'wr', 'addbad', 'addbad'], 5):
+            op = self.op_catch_multi(what)
             if op:
                 ops.append(op)
         return ops
@@ -1217,7 +1254,7 @@ class Gen:
             elif k == 'empty':
                 op = self.op_empty()
             elif k == 'catch':
-                op = self.op_catch()
+                op = self.op_catch() if self.rng.random() < 0.75 else self.op_catch_multi()
             else:
                 op = {'state': self.op_state, 'ctx': self.op_ctx, 'location': self.op_location,
                       'descr': self.op_descr}[k]()
@@ -1364,13 +1401,15 @@ def oracle_provider(case, result):
             gone = {c[0] for c in st['caught']}
             stmts = op.get('items') or op.get('actions') or []
 
-            def key(x):
+            def keys(x):
                 if op['k'] == 'state':
-                    return ('states', str(x[0]))
+                    return [('states', str(x[0]))]
                 if op['k'] == 'ctx':
-                    return ('cstates', str(x[2] if x[0] == 'mk' else x[1])) if x[0] in ('mk', 'get', 'delstate') else None
-                return ('descrs', str(x[1]))
-            livek = {key(x) for i, x in enumerate(stmts) if i not in gone}
+                    if x[0] == 'wr':
+                        return [('cstates', str(h)) for h in x[2]]
+                    return [('cstates', str(x[2] if x[0] == 'mk' else x[1]))] if x[0] in ('mk', 'get', 'delstate') else []
+                return [('descrs', str(x[1]))]
+            livek = {k for i, x in enumerate(stmts) if i not in gone for k in keys(x)}
             # objects that other statements of the body change as a side effect: disassociate_all the context states of
             # its descriptor, a created / removed child its parent
             for i, x in enumerate(stmts):
@@ -1382,9 +1421,8 @@ def oracle_provider(case, result):
                     livek.add(('descrs', str(x[2])))
                 if op['k'] == 'descr' and x[0] == 'del' and str(x[1]) in tb.t['descrs']:
                     livek.add(('descrs', str(tb.t['descrs'][str(x[1])][1])))
-            for i in sorted(gone):
-                k = key(stmts[i]) if i < len(stmts) else None
-                if k is None or k in livek:
+            for i, k in [(i, k) for i in sorted(gone) if i < len(stmts) for k in keys(stmts[i])]:
+                if k in livek:
                     continue
                 hit = [x for x in d[k[0]]['set'] if str(x[0]) == k[1]] or [h for h in d[k[0]]['del'] if h == k[1]]
                 if hit:
